@@ -180,6 +180,27 @@ pub open spec fn policy_failure(p: TrampolineRoutingPolicy) -> Seq<u8> {
       (req.onion.short_channel_id is Some || req.onion.forward_msat is None) ==> !final(g).via_listener
 //@ ensures#direct_continue_is_untouched [C13]
       (r is Continue && !final(g).via_listener) ==> continue_untouched(*req, r)
+//@ ghost after_stmt /^let payment_state = payments/
+//    snapshot of the table entry (and its ghost view) as found / created under the lock
+      let ghost g0 = *g; let ghost ps0 = *payment_state;
+//@ proof#relative_expiry_below_policy_rejects_the_set [C04,C12,C07] after_stmt /^payment_state\.add_htlc\(/
+//    the gate clauses, stated on the whole function as well (the slice handle_htlc#gate states the same):
+      assert((req.htlc.cltv_expiry_relative < self.params.routing_policy.cltv_expiry_delta as i64) ==>
+          (payment_state.is_fail_requested && g.ready_q == g0.ready_q));
+//@ proof#declared_total_below_fee_rejects_the_set [C12,C07] after_stmt /^payment_state\.add_htlc\(/
+      assert(!crate::fee_spec(self.params.routing_policy, crate::htlc_manager::declared_total(*req, req.onion.forward_msat->0), trampoline.amount_msat) ==>
+          (payment_state.is_fail_requested && g.ready_q == g0.ready_q));
+//@ proof#conflicting_info_rejects_the_set [C07,C10,C03] after_stmt /^payment_state\.add_htlc\(/
+      assert(trampoline != ps0.trampoline ==> (payment_state.is_fail_requested && g.ready_q == g0.ready_q));
+//@ proof#first_rejection_carries_the_configured_policy [C12] after_stmt /^payment_state\.add_htlc\(/
+      assert((g0.fail_q.len() == 0 && !ps0.is_fail_requested && trampoline == ps0.trampoline
+            && ((req.htlc.cltv_expiry_relative < self.params.routing_policy.cltv_expiry_delta as i64)
+                || !crate::fee_spec(self.params.routing_policy, crate::htlc_manager::declared_total(*req, req.onion.forward_msat->0), trampoline.amount_msat)))
+          ==> (g.fail_q.len() == 1 && g.fail_q[0] is Fail
+               && g.fail_q[0]->failure_message@ == crate::htlc_manager::policy_failure(self.params.routing_policy)));
+//@ proof#htlc_is_held_or_answered_at_once [C06,C07,C03,C01,C02] after_stmt /^payment_state\.add_htlc\(/
+      assert(ps0.resolution is None ==>
+          g.held == g0.held.push(HeldAbs { amount: req.htlc.amount_msat, expiry: req.htlc.cltv_expiry }));
 //@ closure 0
 //@ creturns p: PaymentState
 //@ ensures#fresh_entry_is_blank_and_for_this_trampoline [C06,C03,C07,C01,C10,C04]
